@@ -194,11 +194,19 @@ EvParEnd ==
   /\ par' = <<>>
   /\ UNCHANGED <<g, gclo>>
 
+\* the crafted twin layout (the bytes of a manifest referenced as a manifest and as an opaque layer below one root,
+\* reopened after GC): the manifest's config and layer have exactly the manifest as predecessor
+EvTwin ==
+  /\ Rec.e = "twin"
+  /\ V({<<"ReopenOpens", Rec.opened>>,
+        <<"ReopenPredTwin", Rec.opened => (Rec.predcfg = <<Rec.want>> /\ Rec.predlayer = <<Rec.want>>)>>})
+  /\ UNCHANGED <<g, content, tags, indexed, stray, alt, tagann, gclo, par, lost>>
+
 Step ==
   /\ l <= Len(Trace)
   /\ l' = l + 1
   /\ done' = FALSE
-  /\ \/ EvInit \/ EvOp \/ EvStrayAlt \/ EvQuery \/ EvObs \/ EvDisk \/ EvReopenErr \/ EvPar \/ EvPop \/ EvParHang \/ EvParEnd
+  /\ \/ EvTwin \/ EvInit \/ EvOp \/ EvStrayAlt \/ EvQuery \/ EvObs \/ EvDisk \/ EvReopenErr \/ EvPar \/ EvPop \/ EvParHang \/ EvParEnd
 
 Finish ==
   /\ l = Len(Trace) + 1 /\ ~done
